@@ -186,6 +186,75 @@ func suiteSessInject(e *vh.Env) {
 		}
 	}
 	*enableWebsocketsInjection = false
+	sessTwoHosts(e, backendHost, sessName, &mu, &handshakeCookies, n)
+}
+
+// sessTwoHosts: one session holds cookies for two hosts; a shimmed websocket is opened on one host with a target URL
+// that names the other.  The cookies sent with the handshake are those of the host the request was addressed to
+// (the URL in the open body contributes path and query only).
+func sessTwoHosts(e *vh.Env, backendHost, sessName string, mu *sync.Mutex, handshakeCookies *[]string, base int) {
+	if !e.Want(base) {
+		return
+	}
+	sessionLRU = sessions.NewCache(sessName, time.Hour, 10, true)
+	*shimWebsockets, *enableWebsocketsInjection = true, false
+	ctx, cancel := context.WithCancel(context.Background())
+	defer cancel()
+	chain, err := hostProxy(ctx, backendHost, "shimpath", false, false)
+	if err != nil {
+		panic(err)
+	}
+	do := func(host, method, path, cookie, body string) *httptest.ResponseRecorder {
+		req := httptest.NewRequest(method, "http://"+host+path, strings.NewReader(body))
+		req.Host = host
+		if cookie != "" {
+			req.Header.Set("Cookie", cookie)
+		}
+		rw := httptest.NewRecorder()
+		chain.ServeHTTP(rw, req)
+		return rw
+	}
+	r1 := do("a.example", "GET", "/login?k=on-a", "", "")
+	sid := ""
+	for _, c := range r1.Result().Cookies() {
+		if c.Name == sessName {
+			sid = c.Value
+		}
+	}
+	if sid == "" {
+		e.Fail("C10:no-session-issued", "two-host scenario: no session cookie", base, nil, nil, nil)
+		return
+	}
+	ck := sessName + "=" + sid
+	do("b.example", "GET", "/login?k=on-b", ck, "")
+	for _, tc := range []struct{ host, target, want, not string }{
+		{"a.example", "wss://b.example/ws?x=1", "backend=b-on-a", "backend=b-on-b"},
+		{"b.example", "ws://a.example:8080/ws", "backend=b-on-b", "backend=b-on-a"},
+		{"a.example", "/ws", "backend=b-on-a", "backend=b-on-b"},
+	} {
+		mu.Lock()
+		*handshakeCookies = nil
+		mu.Unlock()
+		r := do(tc.host, "POST", "/shimpath/open", ck, tc.target)
+		var opened struct {
+			ID string `json:"id"`
+		}
+		json.Unmarshal(r.Body.Bytes(), &opened)
+		mu.Lock()
+		hc := append([]string(nil), (*handshakeCookies)...)
+		mu.Unlock()
+		if r.Code != 200 || len(hc) != 1 {
+			e.Fail("C10:shim-open-failed", fmt.Sprintf("two-host scenario: open on %s with target %q answered %d, handshakes %d", tc.host, tc.target, r.Code, len(hc)), base, nil, nil, nil)
+			continue
+		}
+		if !strings.Contains(hc[0], tc.want) || strings.Contains(hc[0], tc.not) || strings.Contains(hc[0], sid) {
+			e.Fail("C10:backend-cookies-wrong:shim-open-other-host", fmt.Sprintf("one session holds backend=b-on-a for a.example and backend=b-on-b for b.example; a shim open addressed to %s with target URL %q reached the backend with Cookie %q (want %s only)", tc.host, tc.target, hc[0], tc.want), base, nil, hc[0], tc.want)
+		}
+		do(tc.host, "POST", "/shimpath/close", ck, fmt.Sprintf(`{"id":%q}`, opened.ID))
+		e.Eval("two-hosts:"+tc.host+tc.target, true)
+	}
+	sessionLRU = nil
+	e.Count("session-with-two-hosts")
 }
 
 func truncStr(s string, n int) string {
